@@ -19,7 +19,7 @@ type constDef struct {
 	at      int      // index of the first top-level item that may use it
 }
 
-var constValuePool = [][]string{{"3"}, {"VAR_TEMP_1"}, {"FLAG_HIDE", "+", "1"}, {"0x4001"}, {"(", "2", "*", "3", ")"}, {"ITEM_FOO"}, {"-1"}, {"TRAINER_X"}, {"LOCALID_NPC"}, {"A_B", "C_D"}}
+var constValuePool = [][]string{{"3"}, {"ITEM_NONE"}, {"0x00ff"}, {"VAR_TEMP_1"}, {"FLAG_HIDE", "+", "1"}, {"0x4001"}, {"(", "2", "*", "3", ")"}, {"ITEM_FOO"}, {"-1"}, {"TRAINER_X"}, {"LOCALID_NPC"}, {"A_B", "C_D"}}
 
 func isIdentTok(s string) bool {
 	if s == "" {
@@ -206,7 +206,7 @@ func injectConsts(k *h.Case, g *spec.Gen, prog *spec.Program) []*constDef {
 			blk(i, x.Body)
 		case *spec.MartItem:
 			for _, e := range x.Items {
-				if e.PS == nil && r.IntN(3) == 0 {
+				if e.PS == nil && r.IntN(2) == 0 {
 					if c, ok := pick(i, true, false); ok {
 						e.Name = c
 						k.Count("const_use_mart_item", 1)
@@ -251,7 +251,7 @@ func addDecoys(k *h.Case, g *spec.Gen, prog *spec.Program, defs []*constDef) {
 			scripts = append(scripts, s)
 		}
 	}
-	roles := r.Perm(9)
+	roles := r.Perm(10)
 	for _, role := range roles {
 		if r.IntN(2) == 0 {
 			continue
@@ -303,6 +303,17 @@ func addDecoys(k *h.Case, g *spec.Gen, prog *spec.Program, defs []*constDef) {
 				s.Body.Stmts = append([]spec.Stmt{ps}, s.Body.Stmts...)
 				k.Count("decoy_poryswitch_key_and_case", 1)
 			}
+		case 9: // inline string whose whole content is the constant's name (text content is never substituted)
+			if len(scripts) > 0 {
+				s := scripts[r.IntN(len(scripts))]
+				t := &spec.TextVal{ID: prog.NewID(), Parts: []string{n}}
+				if r.IntN(3) == 0 {
+					t.Type = "ascii"
+				}
+				c := &spec.Cmd{ID: prog.NewID(), Name: g.Name("cmd"), Args: []*spec.Arg{{Text: t}, {Toks: []string{"1"}}}}
+				s.Body.Stmts = append([]spec.Stmt{&spec.CmdStmt{Cmd: c}}, s.Body.Stmts...)
+				k.Count("decoy_inline_string_content", 1)
+			}
 		case 8: // mart name
 			prog.Items = append(prog.Items, &spec.MartItem{ID: prog.NewID(), Name: n, Items: []*spec.ListElem{{ID: prog.NewID(), Name: "ITEM_POTION"}}})
 			k.Count("decoy_mart_name", 1)
@@ -319,6 +330,9 @@ func runC13(ctx *h.Ctx) int {
 	ctx.RunCases("const-pairs", ctx.N(6000, 300000), func(k *h.Case) {
 		g := spec.NewGen(k.R, prof)
 		prog := g.FullProgram(1 + k.R.IntN(4))
+		if k.R.IntN(3) == 0 {
+			prog.Items = append(prog.Items, g.MartStmt())
+		}
 		defs := injectConsts(k, g, prog)
 		addDecoys(k, g, prog, defs)
 		// place the definitions: each before the first item that may use it
